@@ -208,6 +208,7 @@ func (d *dir) applyEdits(p []byte) []byte {
 			if e.Off != off {
 				continue
 			}
+			d.sim.Logf("edit %s %s@%d val=%d", d.name, e.Kind, off, e.Val)
 			switch e.Kind {
 			case "sub":
 				b = byte(e.Val)
